@@ -580,6 +580,47 @@ func boolFieldFacts(c *Ctx, fn *ssa.Function, b *ssa.BasicBlock, depth int) []fi
 				continue
 			}
 		}
+		// a bool parameter that every library caller fills from one and the same bool member
+		// (setSessionHeader(w, r.isStateless, session))
+		if prm, ok := cond.(*ssa.Parameter); ok {
+			if bt, isB := prm.Type().Underlying().(*types.Basic); isB && bt.Kind() == types.Bool {
+				idx := -1
+				for i, q := range fn.Params {
+					if q == prm {
+						idx = i
+					}
+				}
+				var keys []string
+				nCallers, all := 0, true
+				for _, e := range ir.Callers(c.G, fn) {
+					if e.Site == nil || !c.P.IsLib(e.Caller.Func) {
+						continue
+					}
+					args := e.Site.Common().Args
+					nCallers++
+					if idx < 0 || idx >= len(args) {
+						all = false
+						continue
+					}
+					if f, _, ok := ir.LoadedField(args[idx]); ok {
+						keys = append(keys, f.Key())
+					} else {
+						all = false
+					}
+				}
+				if nCallers > 0 && all {
+					// (one fact per caller's member: in each caller's context it is that member the test is about)
+					seenK := map[string]bool{}
+					for _, k := range keys {
+						if !seenK[k] {
+							seenK[k] = true
+							out = append(out, fieldFact{k, g.Branch})
+						}
+					}
+					continue
+				}
+			}
+		}
 		if depth >= 2 {
 			continue
 		}
